@@ -85,14 +85,27 @@ def targeted():
     T.append(("grouped_through_subquery", lambda p, t, u: t >> p.group_by(t.g) >> p.mutate(r=p.rank(arrange=[t.b.nulls_last()])) >> p.alias("z") >> p.filter(p.C.r <= 2) >> p.mutate(n=p.C.b.sum()) >> p.ungroup()))
     T.append(("grouped_through_subquery_summarize", lambda p, t, u: t >> p.group_by(t.g) >> p.mutate(r=p.rank(arrange=[t.b.nulls_last()])) >> p.alias("z") >> p.filter(p.C.r <= 2) >> p.summarize(n=p.count(), s=p.C.b.sum())))
     T.append(("grouped_slice_like", lambda p, t, u: t >> p.group_by(t.g) >> p.mutate(r=p.row_number(arrange=[t.a.nulls_last(), t.b.nulls_last()])) >> p.alias("z") >> p.filter(p.C.r == 1) >> p.mutate(m=p.C.b.max(), k=p.C.a.min()) >> p.ungroup()))
+    # the grouping column is neither used above the subquery nor selected at the end (F61: it was pruned from the subquery)
+    T.append(("grouping_pruned_summarize", lambda p, t, u: t >> p.group_by(t.g) >> p.mutate(w=t.b.sum()) >> p.alias("z") >> p.filter(p.C.w > 0) >> p.summarize(n=p.count()) >> p.select(p.C.n)))
+    T.append(("grouping_pruned_window", lambda p, t, u: t >> p.group_by(t.g) >> p.mutate(w=t.b.sum()) >> p.alias("z") >> p.filter(p.C.w > 0) >> p.mutate(m=p.C.a.max()) >> p.ungroup() >> p.select(p.C.m)))
     T.append(("hidden_through_subquery", lambda p, t, u: t >> p.mutate(a=t.a + 1) >> p.arrange(p.C.a.nulls_last(), t.b.nulls_last(), t.g.nulls_last()) >> p.slice_head(2) >> p.alias("z", keep_col_refs=True) >> p.filter(t.a > 0) >> p.mutate(w=t.a, v=p.C.a)))
     T.append(("reorder_through_subquery", lambda p, t, u: t >> p.select(t.g, t.a, t.b) >> p.mutate(a=t.b) >> p.arrange(t.b.nulls_last(), t.g.nulls_last(), t.a.nulls_last()) >> p.slice_head(2) >> p.alias("z") >> p.filter(p.C.g.is_not_null())))
     T.append(("two_subqueries", lambda p, t, u: t >> p.mutate(s=t.b.sum(partition_by=t.g)) >> p.alias("y") >> p.filter(p.C.s > 0) >> p.mutate(r=p.row_number(arrange=[p.C.a.nulls_last(), p.C.b.nulls_last(), p.C.g.nulls_last()])) >> p.alias("z") >> p.filter(p.C.r <= 2)))
     return T
 
 
+def refused():
+    """pipelines that need a subquery and have no alias() the library may use: SubqueryError, not an internal error"""
+    R = []
+    # the search for a usable alias() must not walk into the operands of a union (F62: TypeError from copying a source table)
+    R.append(("union_then_full_join", lambda p, t, u: t >> p.select(t.a) >> p.filter(t.a > 1) >> p.union(u >> p.select(u.k) >> p.rename({"k": "a"}) >> p.alias("r")) >> p.full_join(u, p.C.a == u.k)))
+    R.append(("union_alias_left_then_full_join", lambda p, t, u: t >> p.select(t.a) >> p.alias("l") >> p.filter(p.C.a > 1) >> p.union(u >> p.select(u.k) >> p.rename({"k": "a"}) >> p.alias("r")) >> p.full_join(u, p.C.a == u.k)))
+    return R
+
+
 def templates(cfg):
     out = [Template(f"c08.t.{name}", SRC, prog, props=("C08",)) for name, prog in targeted()]
+    out += [Template(f"c08.refused.{name}", SRC, prog, props=("C08",), expect="sql-refuses") for name, prog in refused()]
     for seq, mask in sequences(cfg):
         out.append(
             Template(f"c08.{seq_name(seq, mask)}", SRC, prog_of(seq, mask), props=("C08",), tags=("nonlinear",) if False else ())
